@@ -113,16 +113,5 @@ def extract(g, X):
                ("xr_bits_first", "N"), ("xr_bits_count", "N"), ("xr_bits_free_next", "N"), ("xr_bits_free_gen", "N"),
                ("xr_bits_pos", "N"), ("xr_bits_gen", "N")], "parse_xref.rs:parse_xref_table_and_trailer", tablekw)
 
-    def lex():
-        w = X.fn_body(lexer, "is_whitespace")
-        m = re.search(r"matches!\(\s*b\s*,\s*([^)]*)\)", w)
-        d = re.search(r"fn\s+is_delimiter[^{]*\{[^}]*?(b\"[^\"]*\")\.contains\(b\)", lexer, flags=re.S)
-        nw = X.fn_body(lexer, "next_word")
-        c = re.search(r"while\s+self\.buf\.get\(pos\)\s*==\s*Some\(&(b'[^']+')\)", nw)
-        nl = re.search(r"position\(\|&b\|\s*b\s*==\s*(b'\\?[^']+')\)", nw)
-        sl = re.search(r"if\s+self\.buf\[pos\]\s*==\s*(b'[^']+')", nw)
-        dd = re.search(r"slice\s*==\s*(b\"[^\"]*\")\s*\|\|\s*slice\s*==\s*(b\"[^\"]*\")", nw)
-        return (cl(X.alt_set(m.group(1))), cl(bstr(d.group(1))), str(X.lit(c.group(1))), str(X.lit(nl.group(1))),
-                str(X.lit(sl.group(1))), "[" + "; ".join(cl(bstr(x)) for x in (dd.group(1), dd.group(2))) + "]")
-    g.attempt([("xr_lex_ws", "list N"), ("xr_lex_delims", "list N"), ("xr_lex_comment", "N"), ("xr_lex_nl", "N"),
-               ("xr_lex_slash", "N"), ("xr_lex_doubles", "list (list N)")], "lexer/mod.rs:next_word", lex)
+    # the lexer tables (lex_ws, lex_delims, lex_comment, lex_comment_ends) are generated by gen/extract_syn.py
+
